@@ -59,11 +59,19 @@ func runMulti(c *MultiCase) error {
 		if res.Raw != nil && !exp.Err {
 			keep = append(keep, kept{i, res.Raw, exp.Val})
 		}
+		// ... and so is what GetVariable handed out
+		if exp.CheckGlobals && !exp.Err {
+			for _, name := range sortedKeys(exp.Globals) {
+				if o := r.E.GetVariable(name); o != nil {
+					keep = append(keep, kept{i, o, exp.Globals[name]})
+				}
+			}
+		}
 		// what the host was handed by earlier runs is not changed by later ones
 		for _, k := range keep {
 			v, err := eng.FromObject(k.raw)
 			if err != nil || !lang.DeepEqual(v, k.exp) || v.Inspect() != k.exp.Inspect() {
-				return fmt.Errorf("the value returned by run %d was %s; after run %d the same object reads %s", k.run, k.exp.Describe(), i, v.Describe())
+				return fmt.Errorf("an object handed to the host by run %d (result or GetVariable) was %s; after run %d the same object reads %s", k.run, k.exp.Describe(), i, v.Describe())
 			}
 		}
 	}
@@ -136,7 +144,7 @@ func TestC15(t *testing.T) {
 		ncopy := rapid.IntRange(1, 3).Draw(rt, "ncopy")
 		observe := []lang.Expr{}
 		useFunc := false
-		useBump, useBoth, useSame, useGlob := false, false, false, false
+		useBump, useBoth, useSame, useGlob, useOuter := false, false, false, false, false
 		for i := 0; i < ncopy; i++ {
 			from := rapid.SampledFrom(names).Draw(rt, "from")
 			switch gen.Uniform(rt, "copykind", 5) {
@@ -188,7 +196,18 @@ func TestC15(t *testing.T) {
 			}
 			if i < nmut-1 && gen.Uniform(rt, "copybetween", 2) == 0 {
 				n := fmt.Sprintf("m%d", i)
-				switch gen.Uniform(rt, "betweenkind", 7) {
+				switch gen.Uniform(rt, "betweenkind", 9) {
+				case 7:
+					// ... passed through a function whose parameter has the very name
+					// of the parameter that the inner function steps
+					useBump, useOuter = true, true
+					inner = append(inner, lang.Assign{N: n, X: lang.Call{Fn: "outer", Args: []lang.Expr{lang.Name{N: target}}}})
+					observe = append(observe, lang.Name{N: n})
+				case 8:
+					// ... stepped in a loop scope that re-uses the name of an enclosing loop variable
+					useOuter = true
+					inner = append(inner, lang.Assign{N: n, X: lang.Call{Fn: "looped", Args: []lang.Expr{lang.Name{N: target}}}})
+					observe = append(observe, lang.Name{N: n})
 				case 3:
 					// the stepped variable is passed to a function that steps its parameter
 					useBump = true
@@ -223,9 +242,22 @@ func TestC15(t *testing.T) {
 				aliases++
 			}
 		}
-		if useBump {
+		if useBump || useOuter {
 			defs = append(defs, lang.FuncDef{N: "bump2", Params: []string{"p"}, Body: []lang.Stmt{
 				lang.IncDec{N: "p", Op: rapid.SampledFrom([]string{"++", "--"}).Draw(rt, "b2op")}, lang.Return{X: lang.Name{N: "p"}}}})
+		}
+		if useOuter {
+			defs = append(defs, lang.FuncDef{N: "outer", Params: []string{"p"}, Body: []lang.Stmt{
+				lang.Local{N: "r"}, lang.Assign{N: "r", X: lang.Call{Fn: "bump2", Args: []lang.Expr{lang.Name{N: "p"}}}},
+				lang.Return{X: lang.ArrayLit{Elems: []lang.Expr{lang.Name{N: "p"}, lang.Name{N: "r"}}}}}})
+			// foreach p in [q, 7] { foreach p in [p] { p++; } acc = acc + [p] }: the inner
+			// loop variable shadows the outer one
+			defs = append(defs, lang.FuncDef{N: "looped", Params: []string{"q"}, Body: []lang.Stmt{
+				lang.Local{N: "seen"}, lang.Assign{N: "seen", X: lang.Lit{V: lang.Int(0)}},
+				lang.Foreach{Var: "p", Iter: lang.ArrayLit{Elems: []lang.Expr{lang.Name{N: "q"}, lang.Lit{V: lang.Int(7)}}}, Body: []lang.Stmt{
+					lang.Foreach{Var: "p", Iter: lang.ArrayLit{Elems: []lang.Expr{lang.Name{N: "p"}}}, Body: []lang.Stmt{lang.IncDec{N: "p", Op: "++"}}},
+					lang.Assign{N: "seen", X: lang.Name{N: "p"}}}},
+				lang.Return{X: lang.ArrayLit{Elems: []lang.Expr{lang.Name{N: "q"}, lang.Name{N: "seen"}}}}}})
 		}
 		if useBoth {
 			defs = append(defs, lang.FuncDef{N: "both", Params: []string{"a", "b"}, Body: []lang.Stmt{
@@ -273,6 +305,22 @@ func TestC15(t *testing.T) {
 			}
 			inner = append(inner, lang.Foreach{Var: "lv", Iter: lang.ArrayLit{Elems: el}, Body: []lang.Stmt{lang.IncDec{N: "lv", Op: "++"},
 				lang.ExprStmt{X: lang.Call{Fn: "trace", Args: []lang.Expr{lang.Name{N: "lv"}}}}}})
+			aliases++
+		}
+		// a counter that lives in the evaluator across runs and is only ever
+		// stepped, never read by the script: the host reads it
+		if rapid.Bool().Draw(rt, "counter") {
+			var start lang.Value = lang.Int(rapid.SampledFrom([]int64{0, 65533, 65534, 65535, -1}).Draw(rt, "cntstart"))
+			if gen.Uniform(rt, "cntfloat", 4) == 0 {
+				start = lang.Float(0.5)
+			}
+			c.Vars["cnt"] = start
+			m.Globals["cnt"] = start
+			for k := rapid.IntRange(1, 3).Draw(rt, "cntsteps"); k > 0; k-- {
+				at := gen.Uniform(rt, "cntat", len(inner)+1)
+				step := lang.Stmt(lang.IncDec{N: "cnt", Op: rapid.SampledFrom([]string{"++", "++", "--"}).Draw(rt, "cntop")})
+				inner = append(inner[:at], append([]lang.Stmt{step}, inner[at:]...)...)
+			}
 			aliases++
 		}
 		// observe everything, including the source re-evaluated
